@@ -42,7 +42,7 @@ def structured_specs(k, r, thorough):
     s += ["%d:none" % k]
     if thorough:
         for _ in range(40):
-            f = r.choice(["author", "payload", "sig", "id", "parent"])
+            f = r.choice(["author", "payload", "sig", "id", "parent"] if k > 0 else ["author", "payload", "sig", "id"])
             s.append("%d:%s:flip:%d:%d" % (k, f, r.below(200), 1 << r.below(8)))
     return s
 
@@ -119,7 +119,7 @@ def run(ctx):
     if not binp:
         return
     r = ctx.rng
-    nworlds = 10 if ctx.thorough else 4
+    nworlds = 10 if ctx.thorough else 3
     # the wire payload sizes are those of the policy's commands (fixed field sizes); 260 covers the largest
     lines_in = []
     for wi in range(nworlds):
